@@ -510,6 +510,15 @@ class ListenerItem(ListenerBase):
     def handle_dict_items(self, object, name, old, new):
         """ Handles a trait change for items of a dictionary trait.
         """
+        # Unregister every replaced value before anything is registered: an
+        # object that moves to another key within one event must end up
+        # registered ('register' ignores an object that is still active, and
+        # a later 'unregister' would then drop it).
+        if len(new.changed) > 0:
+            unregister = self.next.unregister
+            for obj in new.changed.values():
+                unregister(obj)
+
         self.handle_dict(object, name, new.removed, new.added)
 
         if len(new.changed) > 0:
@@ -522,10 +531,8 @@ class ListenerItem(ListenerBase):
                 name = name[: -len("_items")]
 
             dict = getattr(object, name)
-            unregister = self.next.unregister
             register = self.next.register
-            for key, obj in new.changed.items():
-                unregister(obj)
+            for key in new.changed:
                 register(dict[key])
 
     def handle_error(self, obj, name, old, new):
